@@ -68,6 +68,9 @@ CONSTANTS Kind,        \* "value" | "map"
           AllowEmpty,  \* consumers may write a command with an empty body (value)
           AllowHold,   \* the remote may deliver its answers one notification at a time
           AllowStop,   \* the environment may fire the stop trigger / the lane may unlink
+          Placement,   \* TRUE: "late attach placement" scripts - the first consumer attaches first with SYNC, the
+                       \* remote delivers every answer one notification at a time, nobody drops: the later
+                       \* consumers' attaches fall at every position of the remote's notification sequence
           Settled,     \* TRUE: environment acts only when the runtime is quiescent
           MaxSteps,    \* bound on the number of environment actions
           Strategies,  \* bad-frame strategies the runtime may be given: subset of {"abort", "ignore"}
@@ -478,7 +481,8 @@ Quiescent ==
 
 \* The environment (the harness driver) runs between polls of the runtime: when everything is
 \* idle, or - unless Settled - in a burst of several actions before the runtime is polled again.
-MayEnv == ~done /\ (Quiescent \/ (~Settled /\ burst))
+First == CHOOSE c \in Consumers : \A d \in Consumers : c <= d
+MayEnv == ~done /\ (Quiescent \/ (~Settled /\ burst)) /\ (Placement => cstate[First] # "new")
 MayAct == MayEnv /\ Len(hist) < MaxSteps
 \* once the script has MaxSteps actions, the remote only drains (deterministically), then Finish
 Draining == Len(hist) >= MaxSteps
@@ -497,7 +501,8 @@ Act(rec, events) ==
 NoRead == burst' = TRUE /\ breads' = Reads0 /\ UNCHANGED nbad
 
 Attach(c, o) ==
-    /\ cstate[c] = "new" /\ Open /\ MayAct
+    /\ cstate[c] = "new" /\ Open
+    /\ IF Placement /\ c = First THEN ~done /\ Quiescent /\ hist = <<>> /\ o.sync ELSE MayAct
     /\ cstate' = [cstate EXCEPT ![c] = "att"] /\ copt' = [copt EXCEPT ![c] = o]
     /\ aq' = Append(aq, c)
     /\ Act([k |-> "attach", c |-> c, sync |-> o.sync, keep |-> o.keep, attached |-> TRUE],
@@ -533,7 +538,7 @@ CSend(c, o, k) ==
                    attVars, readVars, writeVars, done>>
 
 CDrop(c) ==
-    /\ Alive(c) /\ Open /\ MayAct
+    /\ ~Placement /\ Alive(c) /\ Open /\ MayAct
     /\ cstate' = [cstate EXCEPT ![c] = "dropped"]
     /\ awL' = Filter(awL, c) /\ awS' = Filter(awS, c) /\ reg' = Filter(reg, c)
     /\ Act([k |-> "cdrop", c |-> c], <<[k |-> "cdrop", c |-> c]>>)
@@ -567,6 +572,7 @@ Readable == SockOpen /\ wire # <<>> /\ ~(ws = "idle" /\ wreg # {} /\ ~flushed /\
 RRead(hold) ==
     /\ Readable /\ MayDrain /\ (Quiescent \/ Reads0 < SockCap)
     /\ Draining => (~hold /\ outbox = <<>>)
+    /\ (Placement /\ ~Draining) => hold
     /\ breads' = Reads0 + 1 /\ burst' = (Reads0 < SockCap) /\ UNCHANGED nbad
     /\ LET f == Head(wire)
            ans == Answer(f)
